@@ -38,6 +38,14 @@ WHAT IS OFFERED (case kinds; x = exhaustive plan, r = random)
                built line by line (Gfa(); add_line): the segments it mentions are placeholders and the Gfa holds no S
                line at all (no line of any other kind when the dependant is a group) while the first call is made;
                the two S lines are added between the first and the second call / never (levels 1 and 3).
+  unname (x)   the NAME of a line which groups list IS REMOVED: identifier := `*` through line.set(<identifier field>,
+               "*"), line.set("name", "*"), line.<identifier field> = "*", line.name = "*" (gfapy refuses it as long
+               as a group lists the line; building that refusal must not fail).  GFA2 graph in which every kind of
+               member is listed (segments, edges, a gap by a set; segments and edges by a path; the named ones of
+               these two groups, a segment and the gap by an outer set), for each of the 8 combinations of the three
+               groups having an identifier or none (`U * ...`, `O * ...`: the identifier of a group is optional), and
+               a GFA1 graph with two paths (segment, link with ID, path); every target x way on a fresh graph built
+               by Gfa(list) / line by line, groups first; then str(gfa), validate, line(old name), rm(line), levels 0-3.
   graph (r)    a random small graph (rnd_graph: several links per segment end, hairpin / self links, containments,
                paths over links, fragments, gaps, groups of groups sharing members, mutually nested groups, forward
                references, undefined references, placeholders identifiers) built by Gfa(list) or add_line; the line
@@ -55,6 +63,11 @@ WHAT IS OFFERED (case kinds; x = exhaustive plan, r = random)
                the lines it mentions) and the script starts after the first few, or whole record types are held
                back; so calls are made while segments / edges / members are placeholders and while whole
                collections of the Gfa (e.g. its segments) are empty.  `shrink` removes steps and lines.
+               16% of the GFA2 scripts (force_unname) get a group WITHOUT identifier which lists a named line (an
+               existing group loses its identifier -- groups listing it then mention an undefined line -- or a new
+               `U *` / `O *` line is inserted) and a step `unname` at a random place of the script: the line is looked
+               up by name (Gfa.line) and its identifier is set to `*` (one time in four to the empty string) in one
+               of the four ways of `unname` above.
 
 `line.set(tag, None)` is made although None is not a string: it is the documented way to remove a tag
 (doc/tutorial/tags.rst); it is only made for tags the line has.
@@ -91,10 +104,13 @@ RULE = ("exhaustive: the short-string enumerations of C04 (every tag datatype, e
         "not UTF-8 (damaged at 8 kinds of places, other encodings); removal (by name, by object, disconnect) of each line "
         "of every graph made of a segment and two lines depending on it or on each other; every two-call sequence "
         "(change a line, then use it) on the lines of 10 three-line graphs, also with the dependant added first and its "
-        "segments added between the two calls or never; random: random byte-ish strings, random "
+        "segments added between the two calls or never; removal of the name (identifier := '*', 4 ways) of every kind of "
+        "line listed by groups, the groups having an identifier or none (8 combinations, GFA2; GFA1 paths); "
+        "random: random byte-ish strings, random "
         "multi-point mutations, random byte damage of files, random API scripts on a fixed document and on the line "
         "objects of random small graphs with a rich dependency structure (a third of them still incomplete when the "
-        "script starts: lines arrive during the script, dependants before the lines they mention), every graph taken "
+        "script starts: lines arrive during the script, dependants before the lines they mention; 16% of the GFA2 ones with "
+        "a group without identifier and a call removing the name of a line it lists), every graph taken "
         "apart line by line at the end.  Non-trivial: every case (each makes at least "
         "one call).")
 CASE_TIMEOUT = 120
@@ -271,6 +287,10 @@ def _plan(tier):
         for where in RAW_WHERE + RAW_ENCODINGS:
             for v in (0, 1, 2, 3):
                 plan.append({"kind": "rawx", "doc": d, "where": where, "vlevel": v})
+    # (appended last: the indices of the cases above stay what they were)
+    for v in (0, 1, 2, 3):
+        for how in ("list", "add"):
+            plan.append({"kind": "unname", "vlevel": v, "how": how})
     return plan
 
 
@@ -428,6 +448,8 @@ def rnd_graph(rng, ver):
 
 GRAPH_OPS = [("rm_name", 20), ("rm_line", 10), ("disconnect", 10), ("connect", 5), ("set", 14), ("unset", 5), ("delete", 8),
              ("rename", 9), ("get", 3), ("validate", 3), ("str", 2), ("gstr", 2), ("gvalidate", 3), ("add", 4), ("lookup", 2)]
+# (the step `unname` is not drawn from this table: force_unname() inserts it)
+UNNAME_WAYS = ["set-id", "set-name", "attr-id", "attr-name"]
 
 
 def rnd_api_value(rng, names):
@@ -471,6 +493,40 @@ def rnd_graph_steps(rng, lines, names, ver):
         else:
             steps.append([op])
     return steps
+
+
+def force_unname(rng, L, steps):
+    """a GFA2 graph (lines L, changed in place) gets a group WITHOUT identifier (`U * ...` / `O * ...`: the identifier
+    of a group is optional) which lists a named line, and the script (steps, changed in place) gets a call which
+    removes the name of that line (step `unname`: the identifier is set to the placeholder `*`).  Returns False if
+    the graph has no named line a group can list."""
+    named = []
+    for x in L:
+        f = x.split("\t")
+        if f[0] in "SEGOU" and len(f) > 2 and f[1] not in ("*", ""):
+            named.append((f[0], f[1]))
+    if not named:
+        return False
+    gi = [j for j, x in enumerate(L) if x[:2] in ("U\t", "O\t")]
+    if gi and rng.chance(0.6):
+        # an existing group loses its identifier (groups which list it now mention an undefined line)
+        j = rng.pick(gi)
+        f = L[j].split("\t")
+        f[1] = "*"
+        L[j] = "\t".join(f)
+        kind = f[0]
+        items = [y.rstrip("+-") if kind == "O" else y for y in f[2].split(" ")] if len(f) > 2 else []
+        cands = [n for _rt, n in named if n in items]
+    else:
+        cands = []
+    if not cands:
+        # a new unnamed group which lists one or two of the named lines
+        kind = rng.pick("UO")
+        pool = [n for rt, n in named if kind == "U" or rt in "SEO"] or [n for _rt, n in named]
+        cands = rng.sample(pool, min(len(pool), rng.pick([1, 2])))
+        L.insert(rng.randrange(len(L) + 1), "%s\t*\t%s" % (kind, " ".join(n + (rng.pick("+-") if kind == "O" else "") for n in cands)))
+    steps.insert(rng.randrange(len(steps) + 1), ["unname", rng.pick(cands), rng.pick(UNNAME_WAYS), rng.pick(["*", "*", "*", ""])])
+    return True
 
 
 # the record types from the most dependent to the least dependent one: a line may mention lines of the later types
@@ -564,6 +620,9 @@ def gen_case(rng, tier, i):
         L, names = rnd_graph(rng, ver0)
         case = {"kind": "graph", "lines": L, "vlevel": v, "version": rng.pick([None, ver0, ver0]), "how": rng.pick(["list", "add", "add"]),
                 "steps": rnd_graph_steps(rng, L, names, ver0)}
+        if ver0 == "gfa2" and rng.chance(0.16):
+            # the name of a line which a group WITHOUT identifier lists is removed
+            force_unname(rng, case["lines"], case["steps"])
         if rng.chance(0.35):
             split_graph(rng, case)
         return case
@@ -1101,6 +1160,10 @@ def graph_step(P, g, lines, step, ctx):
         P.call("Gfa.validate() (%s)" % ctx, step, g.validate)
     elif op == "add":
         P.call("Gfa.add_line (%s)" % ctx, step, g.add_line, step[1])
+    elif op == "unname":
+        st, l = P.call("Gfa.line(%r) (%s)" % (step[1], ctx), step, g.line, step[1])
+        if st == "ok" and l is not None:
+            unname_call(P, l, step[2], step[3], ctx, step)
     elif lines:
         l = lines[step[1] % len(lines)]
         st, rt = P.call("line.record_type", step, lambda: l.record_type)
@@ -1134,6 +1197,76 @@ def graph_step(P, g, lines, step, ctx):
                 P.call("%s.get(%r) (%s)" % (who, f, ctx), step, l.get, f)
                 P.call("%s.field_to_s(%r) (%s)" % (who, f, ctx), step, l.field_to_s, f)
         P.call("str(%s) after %s (%s)" % (who, op, ctx), step, str, l)
+
+
+def unname_call(P, l, way, value, ctx, shown):
+    """the identifier of the line l is set to `value` (the placeholder `*`: the name is removed; or the empty string):
+    through set() or the attribute syntax, under the name of the identifier field (sid, eid, gid, pid, name,
+    path_name: the first positional field of S, E, G, O, U, P lines) or under the alias `name`"""
+    st, rt = P.call("line.record_type", shown, lambda: l.record_type)
+    who = "%s-line" % (rt if st == "ok" else "?")
+    f = "name"
+    if way.endswith("-id") and st == "ok" and rt in ("S", "E", "G", "O", "U", "P"):
+        st, pf = P.call("%s.positional_fieldnames" % who, shown, lambda: list(l.positional_fieldnames))
+        if st == "ok" and pf:
+            f = pf[0]
+    if way.startswith("set"):
+        P.call("%s.set(%r, %r) (%s)" % (who, f, value, ctx), shown, l.set, f, value)
+    else:
+        P.call("%s.%s = %r (%s)" % (who, f, value, ctx), shown, setattr, l, f, value)
+    P.call("str(%s) after the removal of its name (%s)" % (who, ctx), shown, str, l)
+
+
+# every line which a group can list, in a graph whose groups have / do not have an identifier of their own
+UNNAME_IDS = [(u, o, w) for u in ("u1", "*") for o in ("o1", "*") for w in ("w1", "*")]
+
+
+def unname_doc(ver, uid, oid, wid):
+    """-> (lines, targets): a graph in which every kind of line that can be a member of a group is one: a set (uid) and
+    a path (oid) over segments, edges and a gap, and an outer set (wid) over the named ones of these two groups;
+    each of the three identifiers is a name or the placeholder `*`"""
+    if ver == "gfa1":
+        return (["S\ts1\t*", "S\ts2\t*", "S\ts3\t*", "L\ts1\t+\ts2\t+\t*\tID:Z:l1", "L\ts2\t+\ts3\t+\t*",
+                 "P\tp1\ts1+,s2+,s3+\t*", "P\tp2\ts3-,s2-\t*"], ["s1", "s3", "l1", "p1"])
+    inner = [x for x in (uid, oid) if x != "*"]
+    L = ["S\ts1\t100\t*", "S\ts2\t100\t*", "S\ts3\t100\t*", "E\te1\ts1+\ts2+\t90\t100$\t0\t10\t*",
+         "E\te2\ts2+\ts3+\t90\t100$\t0\t10\t*", "G\tg1\ts1+\ts3+\t500\t*",
+         "U\t%s\ts1 e1 g1" % uid, "O\t%s\ts1+ e1+ s2+ e2+ s3+" % oid, "U\t%s\t%s" % (wid, " ".join(inner + ["s2", "g1"]))]
+    return L, ["s1", "s2", "e1", "e2", "g1"] + inner
+
+
+def probe_unname(P, vlevel, how):
+    """the name of a line which groups list is removed (identifier := `*`, by set / attribute, under the name of the
+    field / the alias `name`), for every kind of member and every combination of named / unnamed groups listing it;
+    each call on a fresh graph; then the graph is written, validated, searched and the line removed"""
+    gfapy = lib.import_gfapy()
+    docs = [("gfa1", unname_doc("gfa1", None, None, None))] + [("gfa2", unname_doc("gfa2", u, o, w)) for u, o, w in UNNAME_IDS]
+    for ver, (lines, targets) in docs:
+        ctx = "vlevel=%d %s how=%s" % (vlevel, ver, how)
+        for t in targets:
+            for way in UNNAME_WAYS:
+                if how == "list":
+                    st, g = P.call("Gfa(list, %s)" % ctx, lines, gfapy.Gfa, list(lines), vlevel=vlevel)
+                    if st != "ok":
+                        break
+                else:
+                    st, g = P.call("Gfa(%s)" % ctx, lines, gfapy.Gfa, vlevel=vlevel)
+                    if st != "ok":
+                        break
+                    # the groups first: their members are placeholders lines when they arrive
+                    for ln in reversed(lines):
+                        P.call("add_line (%s)" % ctx, ln, g.add_line, ln)
+                    P.call("process_line_queue (%s)" % ctx, lines, g.process_line_queue)
+                shown = {"lines": lines, "line": t, "way": way}
+                st, l = P.call("Gfa.line(%r) (%s)" % (t, ctx), shown, g.line, t)
+                if st != "ok" or l is None:
+                    continue
+                unname_call(P, l, way, "*", ctx, shown)
+                P.call("str(Gfa) after the removal of a name (%s)" % ctx, shown, str, g)
+                P.call("Gfa.validate() after the removal of a name (%s)" % ctx, shown, g.validate)
+                P.call("Gfa.line(old name) after the removal of a name (%s)" % ctx, shown, g.line, t)
+                P.call("Gfa.rm(line) after the removal of a name (%s)" % ctx, shown, g.rm, l)
+                P.call("str(Gfa) after the removal of a name and rm (%s)" % ctx, shown, str, g)
 
 
 def probe_graph(P, case):
@@ -1331,6 +1464,8 @@ def oracle(case):
         probe_progress(P, case["doc"], v)
     elif k == "apiseq":
         probe_apiseq(P, case["version"], case["dep"], v, case.get("segs", "first"))
+    elif k == "unname":
+        probe_unname(P, v, case["how"])
     elif k == "graph":
         probe_graph(P, case)
     elif k == "line":
@@ -1395,6 +1530,8 @@ def tags(case):
             t.append("%s=%s" % (k, case[k]))
     if case.get("late"):
         t.append("late" if case.get("late_at") is not None else "late-never")
+    if any(st[0] == "unname" for st in case.get("steps") or [] if st):
+        t.append("unname-step")
     return t
 
 
